@@ -1399,6 +1399,8 @@ theorem apiProg_triple (c : Cfg) (op : Op) : Triple (fun _ => True) (apiProg c o
   | srcLen m => exact apiSrcLen_triple hR m
   | errno e => exact Triple.retR _ (fun _ h => h)
   | ret b => exact Triple.retR _ (fun _ h => h)
+  | foreign hc op' => exact Triple.retR _ (fun _ h => h)
+  | xtell m name pill => exact Triple.retR _ (fun _ h => h)
 
 theorem apiProg_safe (c : Cfg) (op : Op) : SafeA Inv Mono (apiProg c op) := by
   intro s hI
